@@ -15,6 +15,10 @@ NA = {
 }
 
 CHECKS = {
+ "C09": dict(level="exploration", design="§5 C09",
+   text="Seeded search over module DAGs (2-8 modules, all import / re-export forms, diamonds, equivalent spellings, live counters) x 6 host delivery schedules per graph (any subset/order per round, early unrequested delivery, duplicate delivery, idle rounds); oracle = independent resolver + closed-form values: canonical unique requests with the right importer, nothing delivered is requested again, termination, each body exactly once after its imports, same result/exports/live bindings under every schedule.",
+   note="Trusted: the reference resolver and closed-form model in the harness. Order among independent ready modules is not constrained (partial order only).",
+   technique="deterministic simulation: seeded delivery schedules (reorder, batch, early, duplicate, withhold) vs reference module-graph model"),
  "C08": dict(level="exploration", design="§5 C08",
    text="Seeded search over two-party protocol histories: orderDsl programs (<=7 orders; await order, kept results, Promise.all/race over host promises, explicit cancels, async callees) against a tape-driven simulated host (value / error / plain or order-linked pending promise answers, any settle order and batching, unknown and duplicate ids, idle steps, forced collections). An executable reference model of ledger + promises + combinators runs in lockstep and is compared per Suspended (fresh increasing ids, intact payloads, exactly the issued orders, obligations non-empty) and at Complete (log, nothing unanswered, every cancellation event delivered exactly once). Four recorded findings (Promise.any / allSettled over pending host promises, cancellation lost at Complete) are quarantined from the generator and replayed as witnesses.",
    note="Trusted: the reference model (about 300 lines) and the harness host. Liveness is bounded: after the host has met every obligation, at most three further fruitless rounds are tolerated.",
